@@ -153,7 +153,7 @@ class C06(DevProp):
                 "tag": "mapping-switch[%d,%d]" % (mn, mx)}
 
     def gen(self, rng, tier):
-        cases = []
+        cases = [self.k5_corpus()]
         for i in range(16 if tier == "quick" else 150):
             mn, mx = (RANGES8 + [(-32768, 32767), (0, 1023)])[i % 5]
             cases.append(self.make_multi_case(rng, mn, mx))
@@ -178,9 +178,58 @@ class C06(DevProp):
     def shrink(self, binary, case, budget=12):
         return DevProp.shrink(self, binary, case, budget=budget)
 
+    def k5_signature(self, binary, case, steps):
+        """K5: pitch bend + deadzone_at_center, every failing position has its exact re-centred value |2*raw/max - 1| within 5*2^-53 of
+        the deadzone edge (the float code computes v*2-1 from the rounded quotient and may land on the other side of the edge), and what
+        was transmitted there is one step off the centre (8191 / 8193)."""
+        from fractions import Fraction
+        import struct
+        g = case.get("g") or {}
+        if not steps or g.get("kind") != "pb" or not g.get("dzc") or g.get("mn") != 0:
+            return None
+        dz = Fraction(struct.unpack("<d", struct.pack("<Q", int(g["dzbits"])))[0])
+        _, res = self.fails(binary, {k: v for k, v in case.items() if k != "tag"})
+        if not res or len(res.get("steps", [])) != len(case["events"]):
+            return None
+        for i in steps:
+            if i >= len(case["events"]):
+                continue          # the monotonicity verdict over the whole sweep: judged by the per-step failures
+            e = case["events"][i]
+            if e["t"] != "a":
+                return None
+            w = abs(Fraction(2 * e["val"], g["mx"]) - 1)
+            if abs(w - dz) > Fraction(5, 2 ** 53):
+                return None
+            # the message in force at that position: this step's, or (suppressed duplicate) the last one sent before it
+            m = None
+            for j in range(i, -1, -1):
+                if res["steps"][j]["midi"]:
+                    m = res["steps"][j]["midi"][0]
+                    break
+            if not m or (m[0] & 0xF0) != 0xE0 or (m[2] * 128 + m[1]) not in (8191, 8193):
+                return None
+        return "K5-pitchbend-centre-at-deadzone-edge"
+
     def report_case(self, run_, binary, case, what, steps=None, shrink=True, no_input=False):
         # steps index the axis events; keep the configuration in the replay
+        if not no_input and "gs" not in case:
+            sig = self.k5_signature(binary, case, steps)
+            if sig:
+                small = {k: v for k, v in case.items() if k != "tag"}
+                run_.violation(what + " [configuration: %s]" % json.dumps(case.get("g")),
+                               {"kind": "device-history", "case": small, "failing_steps": steps, "monitor": self.monitor_name}, signature=sig)
+                return
         DevProp.report_case(self, run_, binary, case, what + " [configuration: %s]" % json.dumps(case.get("g")), steps=None, shrink=False, no_input=no_input)
+
+    def k5_corpus(self):
+        """the witness of known finding K5 (Example C06_pb_centre_needed): runs first in every tier"""
+        mn, mx, dzbits = 0, 12, 4595172819793696086
+        an = agen.analog(agen.ABS_X, "pitch_bend", cc=20, ccneg=21, flip=True, dzc=True)
+        cfg = agen.base_cfg([an], dz=[{"sub": "", "code": agen.ABS_X, "bits": str(dzbits)}], defdz=[{"sub": "", "bits": str(bits(0.37))}])
+        up = list(range(mn, mx + 1))
+        return {"cfg": cfg, "abs": [{"code": agen.ABS_X, "min": mn, "max": mx}], "events": [a(agen.ABS_X, v) for v in up + up[::-1]],
+                "g": {"mn": mn, "mx": mx, "dzc": True, "flip": True, "kind": "pb", "dzbits": dzbits, "cc": 20, "ccneg": 21},
+                "tag": "K5-corpus"}
 
 
 def run(run_):
